@@ -1,5 +1,12 @@
 """A user module passed to GETTSIM by path / import string / module object (C14 histories).
-Only plain scalar policy functions; GETTSIM loads every function defined here."""
+Only plain scalar policy functions; GETTSIM loads every function defined here.
+
+If the environment variable VERIF_UM_FAIL is set the module raises half-way through its
+execution - a user module that fails for a reason outside the file itself (a missing
+settings file, say).  Histories use this to put a failing load between good ones."""
+from __future__ import annotations
+
+import os
 
 
 def kindergeld_m(kindergeld_anz_ansprüche: int, kindergeld_params: dict) -> float:
@@ -8,9 +15,15 @@ def kindergeld_m(kindergeld_anz_ansprüche: int, kindergeld_params: dict) -> flo
     return 1.5 * first * kindergeld_anz_ansprüche
 
 
+if os.environ.get("VERIF_UM_FAIL"):
+    raise RuntimeError("user module: settings not available")
+
+
 def verif_extra_column(bruttolohn_m: float, alter: int) -> float:
+    # integer literal in one branch, fractional float in the other; annotated with a
+    # *string* annotation because of the __future__ import above
     if alter < 18:
-        out = 0.0
+        out = 0
     else:
-        out = 0.5 * bruttolohn_m
+        out = 0.5 * bruttolohn_m + 0.125
     return out
